@@ -88,7 +88,10 @@ MANIFEST = dict(
          "C17_generated_for_eq (for loop over the translated body = Esc.forScan), C17_generated_else_eq (= Esc.finalTrim), C17_generated_while_eq "
          "(= Esc.whileLoop, every fuel), C17_generated_split_eq (translated function = Esc.splitWithEscapeD, every input and fuel) and "
          "C17_generated_split_is_reference; a change of split_with_escape changes the generated text and either keeps these equalities or fails "
-         "a proof obligation (code outside the translated subset: broken tie).",
+         "a proof obligation (code outside the translated subset: broken tie). "
+         "The same translator (harness/translate_py_esc2.py) regenerates the escaping loop of serialize_dict (scalar branch after the capitalisation: "
+         "dangerous_characters, the for over the characters, ord, the f-string formats 02x/04x/08x, return) as Gen.EscPy.escBody / escapeLoop: "
+         "C17_generated_escape_body_eq (one round = append Esc.escChar) and C17_generated_escape_eq (= Esc.escapeValue (Esc.dangerous d eq) s, every input).",
     note="unescape is modelled as latin-1/backslashreplace encoding followed by CPython's unicode_escape decoder (validated by stream esc.unesc); "
          "upper()/lower() only for ASCII (otherwise unsupported); str.isnumeric() above U+007F is a table (Unicode 15.0) validated at every boundary "
          "by stream ini.isnum; floats are opaque lexemes. No open finding (C17-j - escape character + maxsplit >= 1 + an escaped delimiter among the first maxsplit delimiters - is fixed by fixes/C17-j.patch and the model, the loop proofs and the main theorem follow the patched code); fixes proposed in this round: C17-e (non-ASCII text through unescape), "
